@@ -201,6 +201,8 @@ pub fn templates(seed: u64, n_random_each: usize, steps: usize, key_table_1100: 
         c.max_idle_per_host = *[0usize, 1, 2, 32].choose(rng).unwrap();
         c.idle_timeout_ms = *[None, Some(0), Some(10_000)].choose(rng).unwrap();
         c.open_ignores_busy = rng.gen_bool(0.5);
+        c.keep_completed_futures = rng.gen_bool(0.3);
+        c.protocol_pending_polls = *[0u8, 0, 1, 2].choose(rng).unwrap();
         c
     };
     let mut push = |name: &str, cfg: LabConfig, ops: Vec<Op>, rng: &mut StdRng, out: &mut Vec<Scenario>| {
@@ -407,6 +409,8 @@ pub fn random_walks(seed: u64, n: usize) -> Vec<Scenario> {
         c.max_idle_per_host = *[0usize, 1, 2, 3, 32].choose(&mut rng).unwrap();
         c.idle_timeout_ms = *[None, Some(0), Some(10_000)].choose(&mut rng).unwrap();
         c.open_ignores_busy = rng.gen_bool(0.5);
+        c.keep_completed_futures = rng.gen_bool(0.3);
+        c.protocol_pending_polls = *[0u8, 0, 1, 2].choose(&mut rng).unwrap();
         match i % 6 {
             0 => {}
             5 => c.origins = vec![origin("http://a.test@b.test"), origin("http://a.test"), origin("http://b.test"), origin("http://user:pw@a.test"), origin("http://b.test@a.test"), origin("http://user:pw@a.test:8080"), origin("http://a.test:8080")],
